@@ -23,6 +23,8 @@ pub enum Ty {
     Opt(Box<Ty>),
     Res(Box<Ty>, Box<Ty>),
     Tuple(Vec<Ty>),
+    /// `std::time::Duration` (nanoseconds as `Nat`; comparison and copy only)
+    Dur,
     /// translated struct / enum (simple Rust name)
     Named(String),
     /// table-mapped external type (Lean name)
@@ -37,6 +39,16 @@ impl Ty {
     }
     pub fn usize() -> Ty {
         Ty::Int(64)
+    }
+    /// contains a part the translator knows nothing about
+    pub fn has_unknown(&self) -> bool {
+        match self {
+            Ty::Unknown => true,
+            Ty::List(t, _) | Ty::Opt(t) => t.has_unknown(),
+            Ty::Res(a, b) => a.has_unknown() || b.has_unknown(),
+            Ty::Tuple(v) => v.iter().any(|t| t.has_unknown()),
+            _ => false,
+        }
     }
     pub fn is_int(&self) -> bool {
         matches!(self, Ty::Int(_) | Ty::IntAny)
